@@ -9,3 +9,13 @@ impl Str {
 }
 // message texts are not modelled (R4): every format!/to_string result is an arbitrary Str
 #[verifier::external_body] pub fn fmt_shim() -> (r: Str) { unimplemented!() }
+// format!("..{}..", a, b, ..) with opts fmt-keep-args (rule R4): the text is an uninterpreted function of the
+// argument VALUES and of the number of arguments (u32 arguments; decimal formatting)
+pub uninterp spec fn fmt1_spec(a: u32) -> Seq<u8>;
+pub uninterp spec fn fmt2_spec(a: u32, b: u32) -> Seq<u8>;
+pub uninterp spec fn fmt3_spec(a: u32, b: u32, c: u32) -> Seq<u8>;
+pub uninterp spec fn fmt4_spec(a: u32, b: u32, c: u32, d: u32) -> Seq<u8>;
+#[verifier::external_body] pub fn fmt1(a: u32) -> (r: Str) ensures r@ == fmt1_spec(a) { unimplemented!() }
+#[verifier::external_body] pub fn fmt2(a: u32, b: u32) -> (r: Str) ensures r@ == fmt2_spec(a, b) { unimplemented!() }
+#[verifier::external_body] pub fn fmt3(a: u32, b: u32, c: u32) -> (r: Str) ensures r@ == fmt3_spec(a, b, c) { unimplemented!() }
+#[verifier::external_body] pub fn fmt4(a: u32, b: u32, c: u32, d: u32) -> (r: Str) ensures r@ == fmt4_spec(a, b, c, d) { unimplemented!() }
